@@ -1,5 +1,5 @@
 (* Property C08 - hidden and unexported struct fields never influence any result. Statements only (proofs: Rel.v, ApiMore.v, Glue.v). *)
-From Coq Require Import List String ZArith NArith Bool Permutation. From Bexpr Require Import Base Strconv Ast Univ Eval Rel Api ApiMore Glue. Import ListNotations.
+From Coq Require Import List String ZArith NArith Bool Permutation. From Bexpr Require Import Base Strconv Ast Univ Eval Rel Api ApiMore C08b. Import ListNotations.
 
 Theorem c08_noninterference :
   forall (re : string -> string -> option bool) (cfg : config) (e : expr) (d1 d2 : iface),
@@ -31,6 +31,6 @@ Theorem c08_rename :
   let fs := FD name true [(tn, tg)] ft :: rest in
   (part = before_comma tg -> get_struct tn part fs (v :: restv) None false = FFound ft v) /\
   (part = name -> name <> before_comma tg -> get_struct tn part fs (v :: restv) None false = get_struct tn part rest restv None false).
-Proof. exact Glue.c08_rename. Qed.
+Proof. exact C08b.c08_rename. Qed.
 Print Assumptions c08_rename.
 
